@@ -12,6 +12,13 @@ Strings travel as `x<hex bytes>` tokens (one `Char` per byte).
   count <cur> x<line>           -> <table size>|err        (header-declared counts)
   pdfsseg <S> <ax…> | <min…>|- | <max…>|-  -> rej | err | ok <min segment> <max segment>
                                    (per-segment lists of an Interfile projection-data header; "-" = key absent)
+  hdr image x<text>             -> rej | err | oob | ok <dump of all members>    (InterfileImageHeader().parse, keys in any order)
+  hdr multi x<text>             -> rej | err | oob | ok <dump of all members>    (MultipleDataSetHeader().parse)
+  po reset                      -> ok                     (empty heap of ParsingObjects; the class = the current key table)
+  po new | po copy <i>          -> <id of the new object>
+  po assign <i> <j> | po destroy <i>  -> ok
+  po parse <i> x<text>          -> <ok1|ok0|err|hang> <dump of the members of object i> | uaf
+  po info <i>                   -> x<parameter_info()> | uaf
 -/
 namespace Driver.C17
 open StirVerif.C17
@@ -83,9 +90,55 @@ def mkAction : String → Action
   | "ignore" => .ignore
   | _ => .set
 
+def hdrAnswer : HdrOutcome → String
+  | .rejected => "rej"
+  | .error => "err"
+  | .oob => "oob"
+  | .diverges => "hang"
+  | .ok p =>
+    -- private members of the C++ header that the harness cannot read are left out of the dump
+    withDump "ok" { p with kmap := p.kmap.filter (fun e => e.key != kPetKeysRegistered && e.key != kImagingModality &&
+                                                     e.key != kByteOrder && e.key != kNumberFormat) }
+
+def N (s : String) : Nat := s.toNat?.getD 0
+
+def poAnswer : PAns → String
+  | .id n => toString n
+  | .done => "ok"
+  | .parsed (.ok true) v => withDump "ok1" v
+  | .parsed (.ok false) v => withDump "ok0" v
+  | .parsed .error v => withDump "err" v
+  | .parsed .diverges _ => "hang"
+  | .text s => hex s
+  | .uaf => "uaf"
+  | .bad => "bad-op"
+
+structure St where
+  p : KP := {}
+  heap : Heap := []
+
+def stepPo (st : St) (toks : List String) : St × String :=
+  let run (op : POp) : St × String :=
+    let (h, a) := st.heap.step st.p op
+    -- the implementation runs a text that does not return in a child process: its state is unchanged
+    match a with
+    | .parsed .diverges _ => (st, "hang")
+    | _ => ({ st with heap := h }, poAnswer a)
+  match toks with
+  | ["reset"] => ({ st with heap := [] }, "ok")
+  | ["new"] => run .new
+  | ["copy", i] => run (.copy (N i))
+  | ["assign", i, j] => run (.assign (N i) (N j))
+  | ["destroy", i] => run (.destroy (N i))
+  | ["parse", i, t] => run (.parse (N i) (unhex t))
+  | ["info", i] => run (.info (N i))
+  | _ => (st, "bad-op")
+
 def stepLine (p : KP) (line : String) : KP × String :=
   let toks := (line.trimAscii.toString.splitOn " ").filter (· ≠ "")
   match toks with
+  | ["hdr", "image", t] => (p, hdrAnswer (parseImageHeader (unhex t)))
+  | ["hdr", "multi", t] => (p, hdrAnswer (parseMultiHeader (unhex t)))
   | ["std", s] => (p, hex (standardise (unhex s)))
   | ["kw", s] => (p, hex (getKeyword (unhex s)))
   | ["cfg", "reset"] => ({}, "ok")
@@ -115,12 +168,20 @@ def stepLine (p : KP) (line : String) : KP × String :=
     | _ => (p, "bad-op")
   | _ => (p, "bad-op")
 
-partial def loop (h : IO.FS.Stream) (p : KP) : IO Unit := do
+def stepAll (st : St) (line : String) : St × String :=
+  let toks := (line.trimAscii.toString.splitOn " ").filter (· ≠ "")
+  match toks with
+  | "po" :: rest => stepPo st rest
+  | _ =>
+    let (p', out) := stepLine st.p line
+    ({ st with p := p' }, out)
+
+partial def loop (h : IO.FS.Stream) (st : St) : IO Unit := do
   let line ← h.getLine
   if line.isEmpty then return ()
-  let (p', out) := stepLine p line
+  let (st', out) := stepAll st line
   IO.println out
-  loop h p'
+  loop h st'
 
 def main : IO Unit := do loop (← IO.getStdin) {}
 end Driver.C17
